@@ -56,3 +56,21 @@ def check_model_types(gs: Tuple[bool, bool], gc: Tuple[bool, bool], fu: Tuple[bo
     except ModelInitilizationError:
         return False
     return True
+
+
+FP2 = ["next_a", "next_b", "a", "b", "next_", "anext_a"]  # look-alikes of the required transition names
+
+
+def check_model_transition_names(s: Tuple[bool, bool], f: Tuple[bool, bool, bool, bool, bool, bool]) -> bool:
+    """
+    only a function called exactly next_<state> counts as the transition of a state: functions named
+    like the state itself, "next_" or "<x>next_<state>" do not make a state without transition acceptable
+    post: _ == ((not s[0] or f[0]) and (not s[1] or f[1]))
+    """
+    states = {n: G for n, on in zip(SP, s) if on}
+    funcs = {"utility": _f} | {n: _f for n, on in zip(FP2, f) if on}
+    try:
+        Model(n_periods=2, functions=funcs, states=states, choices={"c": G})
+    except ModelInitilizationError:
+        return False
+    return True
